@@ -1,3 +1,4 @@
+pub mod c05;
 pub mod c08;
 pub mod c09;
 pub mod c12;
@@ -6,6 +7,7 @@ use crate::framework::Prop;
 
 pub fn by_id(id: &str) -> Option<&'static dyn Prop> {
     match id {
+        "C05" => Some(&c05::C05),
         "C08" => Some(&c08::C08),
         "C09" => Some(&c09::C09),
         "C12" => Some(&c12::C12),
